@@ -4,6 +4,7 @@ package main
 
 import (
 	"verif/harness/fw"
+	_ "verif/props/c06"
 	_ "verif/props/c14"
 	_ "verif/props/selftest"
 )
